@@ -64,7 +64,8 @@ CLAIMED["C01"] = {
             "the lowering context only grows; at every assignment (all reals) that satisfies what the grown context demands (queued constraints, declared domains, derived range box) the returned linear form "
             "relaxes the source value in the direction the requirement allows (=, >= or <=). Proved arms: Number, Variable, Add, Sub, Mul, Div, unary minus and Abs (sign-known shortcuts, one-sided rows, exact big-M pair). "
             "For Abs the emitted rows are also proved complete: for every value of the operand inside its derived range the intended auxiliary values satisfy all rows (a too-small big-M constant fails this). "
-            "Supporting contracts proved on the real code: requirement reversal / scaling law, the linear-form algebra over the IndexMap view, expression rebuilding, queueing a constraint / declaring an auxiliary. "
+            "Supporting contracts proved on the real code: requirement reversal / scaling law, the linear-form algebra over the IndexMap view, expression rebuilding, queueing a constraint / declaring an auxiliary, "
+            "and Linearizer::emit_constraint: the emitted row together with what the grown context demands implies the source constraint (requirement chosen from the comparison, constant moved across with its sign). "
             "NOT decided and listed in the evidence as assumed arms: min/max selection, logic reification and assertion lowering, the model-level constraint loop and domain publication, the witness threading through nested auxiliaries, termination.",
     "note": "Trusted: prelude/f64_layer.rs (floats as exact extended reals), prelude/smap.rs (IndexMap<String,_> view), prelude/std_stubs.rs. Assumed contract: BoundsAnalyzer::bounds_of (C07 forward enclosure, unit U07.fwd not proved yet). "
             "Rules: format! abstracted to opaque strings (R6), auxiliary counters abstracted (R21), masked arms end in a diverging stub.",
@@ -74,8 +75,9 @@ CLAIMED["C01"] = {
 CLAIMED["C02"] = {
     "text": "Same units as C01: the general contract's relaxation clause is exactly the objective statement per sub-expression (PreferLower: the linear value can only exceed the source value, so minimising it reaches the source value; "
             "symmetric for PreferHigher; equality for Exact), proved for the affine arms and Abs, together with the requirement reversal law through subtraction, negation and negative scaling and the linear-form algebra "
-            "(constant offset carried through merge/scale). The choice of the requirement from the optimisation direction and the offset hand-over in Linearizer::linearize are NOT yet under contract (listed as not decided).",
-    "note": "As C01. Not decided: objective_requirement selection (linearizer.rs 1555-1559), objective offset extraction (1636-1645), min/max and logic arms.",
+            "(constant offset carried through merge/scale). The choice of the requirement from the optimisation direction and the offset / coefficient hand-over are proved on statement slices lifted verbatim from Linearizer::linearize (U02.obj). "
+            "NOT decided: that the optimum over the auxiliaries is attained for a whole model (the completeness direction through nested auxiliaries), min/max and logic arms.",
+    "note": "As C01. A statement slice is a contiguous run of statements of the real function turned into a function of its free variables; the rest of that function is not in the unit.",
     "technique": "Verus contracts (relaxes(requirement, linear value, source value)) on Exp::linearize arms and ValueRequirement::{reversed, through_scale}",
     "design_ref": "DESIGN.md §5 C02",
 }
